@@ -11,7 +11,7 @@
      op   VL [1; n; rec8; created; obs]        RegisterWaitingTunnel; obs = VL [0; rec10] | VL [3]
           VL [2; n; tid; t0; t1; obs]          LookupWaitingTunnel;  obs = VL [0; rec10] | VL [1] notfound | VL [2] expired | VL [3] invalid | VL [4] other error
           VL [3; n; tid; t0; obs]              RemoveWaitingTunnel;  obs = VL [0] | VL [3]
-          VL [4; d]                            miniredis.FastForward(d)
+          VL [4; d]                            backend time passes: miniredis.FastForward(d) / memory VerifAdvance(d)
           VL [5; n; id; addr; t0]              RegisterNodeAddress
           VL [6; n; id; t0; obs]               GetNodeAddress;        obs = VL [0; addr] | VL [1] not found | VL [2] bad
      rec8 = VL [tunnel; mapping; secret; node; src+2^63; dst+2^63; host; port+2^63], rec10 = rec8 ++ [created; expires]
@@ -111,7 +111,8 @@ Definition replay_op (kind : N) (c : cfg) (s : mstate) (o : tval) : mstate * boo
       let s0 := tick_to kind c s (vn (vnth 3 o)) in
       let '(s1, r) := mstep c s0 (ORemove (vnat (vnth 1 o)) (vb (vnth 2 o))) in
       (s1, res_matches merge r (vnth 4 o), false, (res_code r, res_code r))
-  | 4 => (fst (mstep c s (OTick 0 (if same_clock kind then 0 else vn (vnth 1 o)))), true, false, (0, 0))
+  (* kind 5 is a backend that never expires anything: its clock stands still *)
+  | 4 => (fst (mstep c s (OTick 0 (match kind with 5 => 0 | _ => vn (vnth 1 o) end))), true, false, (0, 0))
   | 5 =>
       let s0 := tick_to kind c s (vn (vnth 4 o)) in
       (fst (mstep c s0 (ORegAddr (vnat (vnth 1 o)) (vb (vnth 2 o)) (vb (vnth 3 o)))), true, false, (0, 0))
